@@ -501,15 +501,27 @@ def run_threads(path, stage, baton, jobs, out, replay_sched=None):
     ncases = count_scripts(path)
     jobs = max(1, min(jobs, ncases))
     procs = []
-    env = dict(os.environ, PYTHONHASHSEED=os.environ.get("PYTHONHASHSEED", "0"))
+    # (stale-object touches raise PanicException on purpose: no backtraces for them)
+    env = dict(os.environ, PYTHONHASHSEED=os.environ.get("PYTHONHASHSEED", "0"), RUST_BACKTRACE="0")
     for j in range(jobs):
         cmd = [sys.executable, os.path.abspath(__file__), "child-threads", path, stage, baton, str(j), str(jobs)]
         if replay_sched is not None:
             cmd.append(json.dumps(replay_sched))
-        procs.append(subprocess.Popen(cmd, stdout=subprocess.PIPE, stderr=subprocess.PIPE, text=True, env=env))
+        # output goes to files: a pipe that nobody drains yet (the children are collected one after the other) blocks the
+        # thread that writes to it once 64 KiB are pending, e.g. a warning printed from inside a scheduled thread
+        fo, fe = open("%s.child%d.out" % (out, j), "w+"), open("%s.child%d.err" % (out, j), "w+")
+        procs.append((subprocess.Popen(cmd, stdout=fo, stderr=fe, text=True, env=env), fo, fe))
     results = []
-    for p in procs:
-        so, se = p.communicate()
+    for p, fo, fe in procs:
+        p.wait()
+        fo.seek(0); fe.seek(0)
+        so, se = fo.read(), fe.read()[-4000:]
+        fo.close(); fe.close()
+        for f_ in (fo.name, fe.name):
+            try:
+                os.remove(f_)
+            except OSError:
+                pass
         current = None
         for line in so.splitlines():
             try:
@@ -548,13 +560,23 @@ def run(path, stage, jobs, out):
     nscripts = count_scripts(path)
     jobs = max(1, min(jobs, nscripts))
     procs = []
-    env = dict(os.environ, PYTHONHASHSEED=os.environ.get("PYTHONHASHSEED", "0"))
+    # (stale-object touches raise PanicException on purpose: no backtraces for them)
+    env = dict(os.environ, PYTHONHASHSEED=os.environ.get("PYTHONHASHSEED", "0"), RUST_BACKTRACE="0")
     for j in range(jobs):
-        procs.append(subprocess.Popen([sys.executable, os.path.abspath(__file__), "child", path, stage, str(j), str(jobs)],
-                                      stdout=subprocess.PIPE, stderr=subprocess.PIPE, text=True, env=env))
+        fo, fe = open("%s.child%d.out" % (out, j), "w+"), open("%s.child%d.err" % (out, j), "w+")
+        procs.append((subprocess.Popen([sys.executable, os.path.abspath(__file__), "child", path, stage, str(j), str(jobs)],
+                                       stdout=fo, stderr=fe, text=True, env=env), fo, fe))
     results = []
-    for j, p in enumerate(procs):
-        so, se = p.communicate()
+    for j, (p, fo, fe) in enumerate(procs):
+        p.wait()
+        fo.seek(0); fe.seek(0)
+        so, se = fo.read(), fe.read()[-4000:]
+        fo.close(); fe.close()
+        for f_ in (fo.name, fe.name):
+            try:
+                os.remove(f_)
+            except OSError:
+                pass
         current = None
         for line in so.splitlines():
             try:
